@@ -82,3 +82,24 @@ def _(self, data: Val):
 @contract("CompiledType.encode", props=["C11", "C12"])
 def _(self, data: Val):
     raises_iff(ConstraintsError, not cc_ok(ident(self._type), data), ensures=[located_at(exc, self._type)])
+
+
+@contract("Type.has_lower_bound", props=["C11"])
+def _(self) -> Bool:
+    ensures(result == (self.minimum != 'MIN'))
+
+
+@contract("Type.has_upper_bound", props=["C11"])
+def _(self) -> Bool:
+    ensures(result == (self.maximum != 'MAX'))
+
+
+@contract("Dict.encode", props=["C11", "C12"])
+def _(self, data: Map('str', Val)):
+    # SEQUENCE / SET: every member that is present in the value is checked; the first violation is located at the member
+    raises_iff(ConstraintsError,
+               exists(lambda j: 0 <= j and j < len(self.members) and self.members[j].name in data
+                      and not cc_ok(ident(self.members[j]), data[self.members[j].name])),
+               ensures=[len(exc.location) >= 1])
+    loop(0, invariant=[forall(lambda j: implies(0 <= j and j < _i0 and self.members[j].name in data,
+                                                cc_ok(ident(self.members[j]), data[self.members[j].name])))])
